@@ -273,12 +273,32 @@ pub fn run(tier: &str, seed: u64, em: &mut Emitter) {
                     o.insert("unsigned".into(), gen_json(&mut r, 2));
                     ("mutate-unsigned", 1)
                 }
-                1 => {
+                1 if r.chance(1, 2) => {
                     // a hashed field that redaction strips (content.body / unknown top-level key)
                     if let Some(CanonicalJsonValue::Object(c)) = o.get_mut("content") {
                         c.insert("body".into(), s(&format!("changed{}", r.below(1000))));
                     }
                     ("mutate-stripped-field", 0)
+                }
+                1 => {
+                    // a top-level key named by some literal of the anchored sources (age_ts, outlier, ...)
+                    // that redaction does not keep and that is not one of the three uncovered members:
+                    // only the content hash protects it (seed3 C03-2)
+                    let pool: Vec<&String> = crate::jgen::source_keys()
+                        .iter()
+                        .filter(|k| !["unsigned", "signatures", "hashes"].contains(&k.as_str()))
+                        .filter(|k| {
+                            let mut probe = signed.clone();
+                            probe.insert((*k).clone(), s("probe"));
+                            redact(probe, &rules(v).redaction, None).is_ok_and(|red| !red.contains_key(k.as_str()))
+                        })
+                        .collect();
+                    if pool.is_empty() {
+                        continue;
+                    }
+                    let k = (*r.pick(&pool)).clone();
+                    o.insert(k, s(&format!("changed{}", r.below(1000))));
+                    ("mutate-stripped-top-level", 0)
                 }
                 2 => {
                     o.insert("depth".into(), CanonicalJsonValue::Integer(1000.into()));
